@@ -3,7 +3,7 @@
    Model: C14_Model.v (ContentSequence of sr/value_types.py; state = list, name
    index `lut`, is_root, is_sr).  [run s ops] = state after the history [ops]. *)
 From Coq Require Import String ZArith List Bool Permutation.
-From HD Require Import Base.Val Base.PySlice C14_Model C14_Proofs.
+From HD Require Import Base.Val Base.PySlice C14_Model C14_Proofs C14_Proofs_Ext C14_Proofs_Slice.
 Import ListNotations.
 Open Scope Z_scope.
 
@@ -213,3 +213,204 @@ Example C14_example :
   index t b = Ok 2 /\ contains t bad = Ok false /\ get_nodes t = Ok [b].
 Proof. eexists. split; [reflexivity|]. vm_compute. repeat split; reflexivity. Qed.
 Print Assumptions C14_example.
+
+(* ======================= from_sequence: the entry path for lists of plain datasets ======================= *)
+(* WellFormed root sr d := is a Dataset /\ ValueType TEXT or CONTAINER /\ has its required attribute /\ has a name /\
+   children (if any) well-formed /\ (root = false -> sr = true -> has a relationship type)   [_check_dataset + from_dataset] *)
+Theorem C14_from_sequence_ok_iff : forall ds root sr, (exists s, from_sequence ds root sr = Ok s) <->
+  root && negb sr = false /\
+  Forall (fun d => d_isds d = true /\ (d_vt d = 1 \/ d_vt d = 2) /\ d_hasval d = true /\ d_hasname d = true /\
+                   (d_kids d = 0 \/ d_kids d = 1) /\ (root = false -> sr = true -> d_rel d <> 0)) ds /\
+  Forall (fun d => init_check root sr (to_item d) = None) ds.
+Proof. exact from_sequence_ok_iff. Qed.
+Print Assumptions C14_from_sequence_ok_iff.
+
+(* a malformed dataset, or one whose item breaks the relationship-type rule of the target sequence, is refused *)
+Theorem C14_from_sequence_refuses : forall ds root sr,
+  (exists d, In d ds /\
+     (~ (d_isds d = true /\ (d_vt d = 1 \/ d_vt d = 2) /\ d_hasval d = true /\ d_hasname d = true /\
+         (d_kids d = 0 \/ d_kids d = 1) /\ (root = false -> sr = true -> d_rel d <> 0)) \/
+      ~ (is_item (to_item d) = true /\ (sr = true -> (irel (to_item d) =? 0) = root)))) ->
+  exists e, from_sequence ds root sr = Err e.
+Proof. exact from_sequence_refuses. Qed.
+Print Assumptions C14_from_sequence_refuses.
+
+(* the error is that of the first failing dataset, else that of __init__ on the converted items *)
+Theorem C14_from_sequence_error : forall ds root sr e, from_sequence ds root sr = Err e ->
+  (exists pre d post, ds = pre ++ d :: post /\ Forall (WellFormed root sr) pre /\ ds_check root sr d = Some e) \/
+  (Forall (WellFormed root sr) ds /\ init (map to_item ds) root sr = Err e).
+Proof. exact from_sequence_error. Qed.
+Print Assumptions C14_from_sequence_error.
+
+Theorem C14_check_dataset_rel_rule : forall root sr d,
+  d_isds d = true -> (d_vt d = 1 \/ d_vt d = 2) -> d_rel d = 0 -> root = false -> sr = true ->
+  ds_check root sr d = Some EATTR.
+Proof. exact check_dataset_rel_rule. Qed.
+Print Assumptions C14_check_dataset_rel_rule.
+
+Theorem C14_dataset_error_class : forall root sr d e, ds_check root sr d = Some e ->
+  (e = ETYPE /\ d_isds d = false) \/ (e = EVALUE /\ d_isds d = true /\ d_vt d <> 0) \/ (e = EATTR /\ d_isds d = true).
+Proof. exact ds_check_error. Qed.
+Print Assumptions C14_dataset_error_class.
+
+(* both constructors establish the index invariant and the strict rule *)
+Theorem C14_construct_ok : forall c root sr s, construct c root sr = Ok s ->
+  (forall n, Permutation (lut s n) (filter (has n) (items s))) /\
+  Forall (fun x => init_check (is_root s) (is_sr s) x = None) (items s) /\
+  is_root s = root /\ is_sr s = sr /\ root && negb sr = false /\
+  items s = match c with FromList l => l | FromSeq ds => map to_item ds end.
+Proof. exact construct_ok. Qed.
+Print Assumptions C14_construct_ok.
+
+(* ======================= the inherited MutableSequence methods ======================= *)
+Theorem C14_xstep_inv : forall s o,
+  (forall n, Permutation (lut s n) (filter (has n) (items s))) ->
+  (forall n, Permutation (lut (fst (xstep s o)) n) (filter (has n) (items (fst (xstep s o))))).
+Proof. exact xstep_inv. Qed.
+Print Assumptions C14_xstep_inv.
+
+Theorem C14_xstep_rule : forall s o,
+  Forall (fun x => is_item x = true /\ (is_sr s = true -> (irel x =? 0) = is_root s)) (items s) ->
+  Forall (fun x => is_item x = true /\ (is_sr (fst (xstep s o)) = true -> (irel x =? 0) = is_root (fst (xstep s o))))
+         (items (fst (xstep s o))).
+Proof. exact xstep_rel. Qed.
+Print Assumptions C14_xstep_rule.
+
+Theorem C14_xstep_flags : forall s o, is_root (fst (xstep s o)) = is_root s /\ is_sr (fst (xstep s o)) = is_sr s.
+Proof. exact xstep_flags. Qed.
+Print Assumptions C14_xstep_flags.
+
+(* pop: returns the item at the (normalised) position, the list loses exactly that position; IndexError iff out of range *)
+Theorem C14_pop_in_range : forall s i,
+  (forall n, Permutation (lut s n) (filter (has n) (items s))) -> - zlen (items s) <= i < zlen (items s) ->
+  exists p v, Z.of_nat p = (if i <? 0 then i + zlen (items s) else i) /\ nth_error (items s) p = Some v /\
+    snd (pop s i) = Ok v /\ items (fst (pop s i)) = firstn p (items s) ++ skipn (S p) (items s) /\
+    (forall n, Permutation (lut (fst (pop s i)) n) (filter (has n) (items (fst (pop s i))))).
+Proof. exact pop_in_range. Qed.
+Print Assumptions C14_pop_in_range.
+
+Theorem C14_pop_out_of_range : forall s i, ~ (- zlen (items s) <= i < zlen (items s)) -> pop s i = (s, Err EINDEX).
+Proof. exact pop_out_of_range. Qed.
+Print Assumptions C14_pop_out_of_range.
+
+(* remove: drops the FIRST occurrence and nothing else; ValueError iff absent; TypeError iff not a content item *)
+Theorem C14_remove_present : forall s x,
+  (forall n, Permutation (lut s n) (filter (has n) (items s))) -> is_item x = true -> In x (items s) ->
+  exists p, nth_error (items s) p = Some x /\ (forall j, (j < p)%nat -> nth_error (items s) j <> Some x) /\
+    snd (remove s x) = None /\ items (fst (remove s x)) = firstn p (items s) ++ skipn (S p) (items s).
+Proof. exact remove_present. Qed.
+Print Assumptions C14_remove_present.
+
+Theorem C14_remove_absent : forall s x,
+  (forall n, Permutation (lut s n) (filter (has n) (items s))) -> is_item x = true -> ~ In x (items s) ->
+  remove s x = (s, Some EVALUE).
+Proof. exact remove_absent. Qed.
+Print Assumptions C14_remove_absent.
+
+Theorem C14_remove_non_item : forall s x, is_item x = false -> remove s x = (s, Some ETYPE).
+Proof. exact remove_junk. Qed.
+Print Assumptions C14_remove_non_item.
+
+(* reverse: the swap loop over __setitem__ reverses the list, never raises, keeps index and rule *)
+Theorem C14_reverse_spec : forall s,
+  (forall n, Permutation (lut s n) (filter (has n) (items s))) ->
+  Forall (fun x => init_check (is_root s) (is_sr s) x = None) (items s) ->
+  snd (reverse s) = None /\ items (fst (reverse s)) = rev (items s) /\
+  (forall n, Permutation (lut (fst (reverse s)) n) (filter (has n) (items (fst (reverse s))))) /\
+  Forall (fun x => init_check (is_root (fst (reverse s))) (is_sr (fst (reverse s))) x = None) (items (fst (reverse s))).
+Proof. exact reverse_spec. Qed.
+Print Assumptions C14_reverse_spec.
+
+(* clear: the pop loop empties the list AND every entry of the index *)
+Theorem C14_clear_spec : forall s,
+  (forall n, Permutation (lut s n) (filter (has n) (items s))) ->
+  snd (clear s) = None /\ items (fst (clear s)) = [] /\ (forall n, lut (fst (clear s)) n = []) /\
+  (forall n, Permutation (lut (fst (clear s)) n) (filter (has n) (items (fst (clear s))))).
+Proof. exact clear_spec. Qed.
+Print Assumptions C14_clear_spec.
+
+Theorem C14_count_spec : forall s x, count s x = Z.of_nat (count_occ item_eq_dec (items s) x).
+Proof. exact count_spec. Qed.
+Print Assumptions C14_count_spec.
+
+(* a failing pop / remove / basic operation (other than extend, +=) leaves list, index and flags as they were *)
+Theorem C14_xstep_refused_unchanged : forall s o e,
+  (forall n, Permutation (lut s n) (filter (has n) (items s))) -> snd (xstep s o) = Err e ->
+  match o with
+  | Op (Extend _) | Op (IAdd _) => True
+  | Reverse | Clear => True
+  | _ => fst (xstep s o) = s
+  end.
+Proof. exact xstep_err_unchanged. Qed.
+Print Assumptions C14_xstep_refused_unchanged.
+
+(* ======================= the property sentence, for ALL operations and BOTH constructors =======================
+   After any history of append, extend, +=, insert, setitem/delitem (int or slice), pop, remove, reverse, clear on a
+   sequence built by __init__ or from_sequence (root, non-root SR, non-SR): the index is the filtered list; find(n)
+   succeeds and returns exactly the items named n, each as often as in the list; index is the first position in
+   the list itself and succeeds iff the item is in the list; `in` is list membership; count counts the list;
+   get_nodes is the filtered list; every item obeys the relationship-type rule. *)
+Theorem C14_history_all : forall c root sr s0 ops, construct c root sr = Ok s0 ->
+  let t := xrun s0 ops in
+  (forall n, Permutation (lut t n) (filter (has n) (items t))) /\
+  (forall n, exists r, find t n = Ok r /\ Permutation r (filter (has n) (items t)) /\
+     forall x, count_occ item_eq_dec r x = if has n x then count_occ item_eq_dec (items t) x else 0%nat) /\
+  (forall x, (forall k, index t x = Ok k ->
+                0 <= k < zlen (items t) /\ nth_error (items t) (Z.to_nat k) = Some x /\
+                forall j, 0 <= j < k -> nth_error (items t) (Z.to_nat j) <> Some x) /\
+             ((exists k, index t x = Ok k) <-> is_item x = true /\ In x (items t)) /\
+             (is_item x = true -> (contains t x = Ok true <-> In x (items t)) /\
+                                  (contains t x = Ok false <-> ~ In x (items t))) /\
+             count t x = Z.of_nat (count_occ item_eq_dec (items t) x)) /\
+  get_nodes t = Ok (filter inode (items t)) /\
+  Forall (fun x => is_item x = true /\ (is_sr t = true -> (irel x =? 0) = is_root t)) (items t).
+Proof. exact xhistory_summary. Qed.
+Print Assumptions C14_history_all.
+
+(* non-vacuity: construction from plain datasets, then every kind of inherited operation *)
+Example C14_example_all :
+  let d1 := DSet true 1 true true 0 1 0 0 in let d2 := DSet true 2 true true 1 2 1 0 in
+  let d3 := DSet true 1 true true 0 1 0 5 in let a := to_item d1 in let b := to_item d2 in let c := to_item d3 in
+  (exists s0, construct (FromSeq [d1; d2; d3; d1]) false true = Ok s0 /\
+   let t := xrun s0 [Reverse; Pop 0; Remove a; Op (Append c); Remove (Item false 0 0 false false 1); Pop 9] in
+   items t = [c; b; c] /\ find t 0 = Ok [c; c] /\ index t c = Ok 0 /\ count t c = 2 /\ get_nodes t = Ok [b] /\
+   items (fst (clear t)) = [] /\ find (fst (clear t)) 0 = Ok []) /\
+  from_sequence [d1; DSet true 1 true true 0 0 0 0] false true = Err EATTR /\
+  from_sequence [DSet true 7 true true 0 1 0 0; DSet false 0 false false 0 0 0 0] false true = Err EVALUE /\
+  from_sequence [d1] true true = Err EATTR /\
+  init [Item true 0 1 false false 0; Item false 0 0 false false 1] false true = Err EATTR.
+Proof. split; [eexists; split; [reflexivity|]; vm_compute; repeat split; reflexivity|vm_compute; repeat split; reflexivity]. Qed.
+Print Assumptions C14_example_all.
+
+(* ======================= slices and exact acceptance ======================= *)
+(* the model's list[a:b:c] has Python's length len(range(f, l, s)), (f, l, s) = slice(a,b,c).indices(len(list)) *)
+Theorem C14_slice_get_length : forall start stop stp (xs : list item) f l s, stp <> 0 ->
+  slice_indices start stop stp (zlen xs) = (f, l, s) -> zlen (slice_get f l s xs) = range_len f l s.
+Proof. exact slice_get_length. Qed.
+Print Assumptions C14_slice_get_length.
+
+(* the error outcome of every basic operation is a function of list, flags and arguments alone: where index and
+   list agree, the name index never makes an operation fail (its removal loop cannot raise) *)
+Theorem C14_step_error_exact : forall s o,
+  (forall n, Permutation (lut s n) (filter (has n) (items s))) -> snd (step s o) = guard s o.
+Proof. exact step_error_exact. Qed.
+Print Assumptions C14_step_error_exact.
+
+(* an operation is accepted IFF every entering item passes the rule and the plain-list operation is valid
+   (index in range; slice step <> 0; extended slice: len(value) = len(range(slice.indices(len)))) *)
+Theorem C14_step_accepts_iff : forall s o,
+  (forall n, Permutation (lut s n) (filter (has n) (items s))) ->
+  (snd (step s o) = None <->
+   Forall (fun x => init_check (is_root s) (is_sr s) x = None) (entering o) /\
+   match o with
+   | SetInt i _ | DelInt i => - zlen (items s) <= i < zlen (items s)
+   | DelSlice _ _ c => step_of c <> 0
+   | SetSlice a b c xs =>
+       step_of c <> 0 /\
+       (step_of c = 1 \/
+        zlen xs = range_len (fst (fst (slice_indices a b (step_of c) (zlen (items s)))))
+                            (snd (fst (slice_indices a b (step_of c) (zlen (items s))))) (step_of c))
+   | _ => True
+   end).
+Proof. exact step_accepts_iff. Qed.
+Print Assumptions C14_step_accepts_iff.
